@@ -32,7 +32,8 @@ theorem filterMap_nil_iff {α β} (f : α → Option β) (l : List α) :
 /-- no computation writes the zero register ⇔ the pass is silent -/
 theorem saveToZero_silent (g : Cfg) :
     lintSaveToZero g = [] ↔
-      ∀ cn ∈ g.nodes.toList, ∀ rd, cn.node.writesTo = some rd → rd.val = 0 → cn.node.canSkipSaveChecks = true := by
+      ∀ cn ∈ g.nodes.toList, ∀ rd, cn.node.writesTo = some rd → rd.val = 0 →
+        cn.node.canSkipSaveChecks = true ∨ cn.node.isNop = true := by
   unfold lintSaveToZero
   rw [filterMap_nil_iff]
   constructor
@@ -40,15 +41,18 @@ theorem saveToZero_silent (g : Cfg) :
     have := h cn hcn
     simp only [hw, h0] at this
     by_cases hs : cn.node.canSkipSaveChecks = true
-    · exact hs
-    · simp [hs] at this
+    · exact Or.inl hs
+    · by_cases hn : cn.node.isNop = true
+      · exact Or.inr hn
+      · simp [hs, hn] at this
   · intro h cn hcn
     cases hw : cn.node.writesTo with
     | none => rfl
     | some rd =>
       by_cases h0 : rd.val = 0
-      · have := h cn hcn rd hw h0
-        simp [h0, this]
+      · rcases h cn hcn rd hw h0 with this | this
+        · simp [h0, this]
+        · simp [h0, this]
       · simp [h0]
 
 /-- every instruction lies in `.text` ⇔ the pass is silent -/
